@@ -9,7 +9,7 @@ from .. import mgmt
 from ..specs import ordered_set_history, stores
 
 PROP = "C06"
-W = dict(p_update_filtered=0, probe=0, query=5, load=0.7, save=0.5, clear=0, build=0.2, long_g=0.15)  # clear_policy leaves the adapter untouched: a later reload is outside C06
+W = dict(p_update_filtered=0, probe=0, query=5, load=0.7, save=0.5, clear=0, build=0.2, long_g=0.15, alias_remove=0.6)  # clear_policy leaves the adapter untouched: a later reload is outside C06
 
 
 def spec_check(kind, rows, lf, ops, obs, impl):
